@@ -141,8 +141,12 @@ def run_tree(rec, tier, seed, ti, spec, other):
             configs += [("walk-shuffle-%d" % w, dict(walk_seed=w)) for w in (101, 202, 303, 404, 505, 606)]
         if tier == "thorough":
             configs += [("hashseed-%d" % h, dict(hashseed=str(h))) for h in (7, 11, 42, 1000)] + [("walk-shuffle-%d" % w, dict(walk_seed=w)) for w in (3, 5, 8, 13)]
+        configs.append(("below-a-directory-named-eolib", {}))
         for cname, kw in configs:
             out = os.path.join(work, "out-" + cname)
+            if cname == "below-a-directory-named-eolib":
+                # the layout of a checkout cloned into a directory called eolib: .../eolib/src/eolib/protocol/_generated
+                out = os.path.join(work, "eolib", "src", "eolib", "protocol", "_generated")
             res = drive(stage.REPO, xml_root, out, **kw)
             rec.case((ti, cname))
             rec.count("configurations-compared")
